@@ -134,6 +134,12 @@ class BatchProcessor:
         # Remove padding if needed
         if self.n_pad > 0:
             return results[: -self.n_pad]
+        if self.n_devices > 1:
+            # Without padding nothing is sliced off, so the reshaped array keeps
+            # its per-device sharding; gather it so that it can be passed to
+            # the next pmapped call as a broadcast argument
+            device = min(results.devices(), key=lambda d: d.id)
+            return jax.device_put(results, device)
         return results
 
     @property
